@@ -468,6 +468,52 @@ def world_tags_case(case):
     return q
 
 
+def lifetime_case(case):
+    """Defaults are read when an instance is initialised: a model's own environment was created with the model (not when
+    somebody first looks at it), and a class that sets its own default tag in its constructor - before handing over to
+    Agent.__init__ - tags the very instance being built."""
+    from mc.engine.seams import reset_library
+    reset_library()
+    how = case['how']
+    if how == 'model_environment':
+        m = new_model(seed=1)                    # its environment exists from now on
+        Core.Environment.tag = 3
+        m2 = new_model(seed=2)
+        try:
+            if m.environment.tag != 0 or m2.environment.tag != 3:
+                raise Violation('the environment of a model built while the Environment default tag was 0 / 3 shows tag '
+                                f'{m.environment.tag} / {m2.environment.tag} after the default was changed to 3 in between',
+                                expected=[0, 3], observed=[m.environment.tag, m2.environment.tag])
+        finally:
+            Core.Environment.tag = 0
+        return 2
+    m = new_model(seed=1)
+
+    class Lazy(Core.Agent):
+        registered = False
+
+        def __init__(self, id, model):
+            if not Lazy.registered:              # the class registers its tag when its first instance is built
+                Lazy.registered = True
+                type(self).tag = 5
+            super().__init__(id, model)
+
+    class Child(Lazy):
+        pass
+    first = (Child if how == 'child_first' else Lazy)('first', m)
+    second = Lazy('second', m)
+    third = Child('third', m)
+    want = {'first': 5 if how != 'child_first' else 5, 'second': 5, 'third': 0 if how != 'child_first' else 5}
+    # (child_first: type(self) is Child, so it is Child's default that becomes 5; Lazy's stays 0)
+    if how == 'child_first':
+        want = {'first': 5, 'second': 0, 'third': 5}
+    got = {'first': first.tag, 'second': second.tag, 'third': third.tag}
+    if got != want or Core.Agent.tag != 0:
+        raise Violation(f'a class that sets its own default tag inside __init__ before Agent.__init__ runs ({how}): tags of '
+                        f'the first instance, a later instance of the parent and one of the child', expected=want, observed=got)
+    return 3
+
+
 # the cheap legs run once more under the runner's ambient configurations (python -O, other logger levels)
 AMBIENT_LEGS = True
 
@@ -494,6 +540,14 @@ def run(ctx):
                 except Violation as v:
                     ctx.report(case, v)
                     return
+    for how in ('model_environment', 'parent_first', 'child_first'):
+        case = {'leg': 'lifetime', 'how': how}
+        ctx.traces += 1
+        try:
+            ctx.transitions += hbfs._guard(lifetime_case, case)
+        except Violation as v:
+            ctx.report(case, v)
+            return
     ctx.leg('world_tags', cases=nw, note='default tags on the bundled world classes and two levels of user subclasses')
     depth = 2 if ctx.small else 3 if ctx.tier == 'quick' else 4
     h = Harness()
@@ -525,6 +579,9 @@ def replay(case):
         return
     if case['leg'] == 'world_tags':
         hbfs._guard(world_tags_case, case)
+        return
+    if case['leg'] == 'lifetime':
+        hbfs._guard(lifetime_case, case)
         return
     c = case['config']
     hbfs.replay_case(Harness(c.get('op_classes'), c.get('op_types', ('X', 'Y')), c.get('subclassing', True),
